@@ -820,9 +820,16 @@ JudgeText(r) ==
 
 \* statement nesting: the engine's tree (re-shaped by the driver into the record layout) against the statement grammar,
 \* the value of r against the static trace of the reference tree
+\* ECMA-262 13.13.1 (early error): a labelled statement nested in a statement with the same label, inside one function
+RECURSIVE StmHasLabel(_, _), StmDupLabel(_)
+StmHasLabel(st, l) == IF st.t = "fun" THEN FALSE
+                      ELSE (st.t = "label" /\ st.op = l) \/ \E j \in 1..Len(st.kids) : StmHasLabel(st.kids[j], l)
+StmDupLabel(st) == \/ st.t = "label" /\ \E j \in 1..Len(st.kids) : StmHasLabel(st.kids[j], st.op)
+                   \/ \E j \in 1..Len(st.kids) : StmDupLabel(st.kids[j])
 JudgeStm(r) ==
   LET ref == ParseProg(r.toks) IN
   IF ~ref.ok \/ ~StaticFlow(ref.t) THEN Unsup("generated program is not in the statement grammar")
+  ELSE IF StmDupLabel(ref.t) THEN (IF r.act.o = "syntax" \/ r.ev1.o = "syntax" THEN Pass ELSE Mis("", "duplicate label accepted"))
   ELSE IF r.act.o = "syntax" THEN Mis("", "valid program rejected")
   ELSE IF r.act.o # "tree" THEN Mis("", "parser raised a host exception or did not answer")
   ELSE IF r.act.t # ref.t THEN Mis("", "statement tree differs from the grammar")
